@@ -19,10 +19,11 @@ def _enc(obj):
 
 
 class Runner:
-    def __init__(self, flavour="asan", timeout=20.0, env_extra=None):
+    def __init__(self, flavour="asan", timeout=20.0, env_extra=None, max_alloc_mb=512):
         self.flavour = flavour
         self.timeout = timeout
-        self.env_extra = env_extra or {}
+        self.env_extra = dict(env_extra or {})
+        self.env_extra.setdefault("max_alloc_mb", max_alloc_mb)
         self.proc = None
         self.errfile = None
         self.restarts = 0
